@@ -101,7 +101,7 @@ func (c *c06) Meta() engine.Meta {
 		Rule: "consensus thread: the dense 8-block history (staking, delegation, unstaking, proposal, votes, withdraw, transfers, contract deploy/call) in genesis variants g3 and g4L (4 equal validators, stake limiter live at 33%/33%); " +
 			"mempool/query thread: 23 calls (CheckTx of: a duplicate of the next / previous block transaction, staking to two delegatees, a new self-stake, three unstakings, proposal, vote, withdraw, transfer of the whole balance, setdoc, contract call, bad nonce, garbage; Query of account, delegatee, stakes, reward, proposal, gov_params, total power at height 0); " +
 			"a schedule places the injected calls into the gaps before/after BeginBlock, after each DeliverTx, after EndBlock and after Commit (Commit itself is one ABCI call and Tendermint holds the mempool lock across it). " +
-			"P<=1: every (gap, call) pair; P=2: every pair of placements drawn from the state-touching CheckTx entries (quick: within blocks 1-6; thorough: all entries, all gaps). " +
+			"P<=1: every (gap, call) pair; P=2: every pair of placements drawn from the state-touching CheckTx entries (quick: within blocks 1-6, second call in the same or one of the next 3 gaps; thorough: all entries, all gaps, second call within the next 6 gaps). " +
 			"Oracle: every DeliverTx / EndBlock / Commit response of the loaded replica equals the quiet replica's; after every Commit the mempool overlays of all seven ledgers are empty. " +
 			"distinct_nontrivial = schedules in which at least one injected CheckTx was accepted (code 0).",
 		Assumptions: []string{"ABCI calls are atomic with respect to each other (one client mutex in node/client.go); verified separately by a free-running -race pass, not by this check"},
@@ -128,7 +128,7 @@ func (c *c06) Prepare(tier string, seed int64) error {
 			if tier == "thorough" {
 				return true
 			}
-			return k < 11 && k != 1
+			return (k < 11 && k != 1) || k == 14
 		}
 		gapOK := func(g int) bool {
 			if tier == "thorough" {
@@ -149,6 +149,10 @@ func (c *c06) Prepare(tier string, seed int64) error {
 				}
 				// quick: the second call lands in the same or one of the next 3 gaps
 				if tier != "thorough" && g2-g1 > 3 {
+					continue
+				}
+				// thorough: all calls, but the second call lands within the next 6 gaps (same or next block)
+				if tier == "thorough" && g2-g1 > 6 {
 					continue
 				}
 				for k1 := range c.menu {
